@@ -62,6 +62,9 @@ type Staking struct {
 	unstaked map[string][]unst // validator name -> pending unstakes
 	Boundary bool              // push stakes around the election boundary
 	Exit     bool              // several validators leave the active set in one block, and come back later
+	firstUn  int64             // height of the first directed unstake of vals[0]
+	secondUn int64             // height of the second one, sent while the first is still maturing
+	swept    bool
 }
 
 type unst struct {
@@ -131,6 +134,7 @@ func (s *Staking) Plan(c *Ctx) []hist.TxSpec {
 		out = append(out, s.stake(c, vals[0], 1000, "validator adds stake"))
 		return out
 	case 2:
+		s.firstUn = c.H
 		out = append(out, s.unstake(c, vals[0], 600, "validator unstakes part"))
 		if len(cands) > 1 {
 			out = append(out, s.stake(c, cands[1], min, "second candidate stakes exactly the minimum"))
@@ -142,6 +146,33 @@ func (s *Staking) Plan(c *Ctx) []hist.TxSpec {
 			out = append(out, s.unstake(c, vals[1], 300, "first of two unstakes in one block"), s.unstake(c, vals[1], 200, "second of two unstakes in one block"))
 		}
 		return out
+	}
+	if s.n == 4 && !s.Exit {
+		// a second unstake of the same stake address while the first one is still maturing: it has its own unlock height
+		s.secondUn = c.H
+		out = append(out, s.unstake(c, vals[0], 150, "second unstake while the first is still maturing"))
+		return out
+	}
+	if s.n == 5 && !s.Exit && len(cands) > 2 {
+		// one stake address funds two validators: the last candidate is staked in by the first validator's stake address
+		sh := *cands[len(cands)-1]
+		sh.Stake = vals[0].Stake
+		out = append(out, s.stake(c, &sh, min+100, "candidate staked in by another validator's stake address"))
+		return out
+	}
+	if s.n == 9 && !s.Exit && len(cands) > 2 {
+		sh := *cands[len(cands)-1]
+		sh.Stake = vals[0].Stake
+		out = append(out, s.unstake(c, vals[0], 200, "unstake from the first of two validators funded by one stake address"), s.unstake(c, &sh, 50, "unstake from the second of two validators funded by one stake address"))
+		return out
+	}
+	if s.firstUn > 0 && !s.swept && !s.Exit && c.H > s.firstUn+c.W.P.StakeMaturity {
+		// right after the first unstake has matured: everything the records call withdrawable is withdrawn
+		s.swept = true
+		if b := BoundedOf(c.S, vals[0].Stake.Addr); b.Sign() > 0 {
+			out = append(out, s.withdraw(c, vals[0], b.Int64(), "withdraw all that is withdrawable right after the first unstake matured"))
+			return out
+		}
 	}
 	if s.Exit && (s.n == 6 || s.n == 22) {
 		// every genesis validator but the two strongest drops to a stake of 1 in the same block
